@@ -105,3 +105,16 @@ register("C18",
               "{0,1,99,100,204,-1,-2,-100,-101,-205,-206,5000}, /sat, /inscriptions/block (+pages), /rune, /runes, /address; TLC compares "
               "every row with the State projected from the index tables",
          distinct=lambda r: json.dumps([r.get("route"), r.get("out"), r.get("l"), r.get("sat"), r.get("at"), r.get("page"), r.get("h"), r.get("name"), r.get("script"), r.get("e"), r.get("n")]))
+
+_STORE_RULE = ("packed sat ranges at the boundaries of the 51-bit base / 33-bit length layout (supply limits, subsidy-long ranges, random), "
+               "UTXO entries with every combination of sat ranges / value, script lengths 0..300 and inscription lists under 8 index-flag "
+               "subsets (a real index per subset), merges of pseudo-output entries, outpoints, satpoints, rune ids, inscription ids and rune "
+               "entries with u128 boundary values; properties with 0..40 gallery items (shared and distinct txids, index 0 / non-zero / u32::MAX), "
+               "traits of every kind, in inline, packed and through Inscription::new with and without compression; brotli inputs with "
+               "expansion ratios 10..40 around the 30:1 limit and sizes around 4,000,000; random bytes")
+register("C35", cmd=lambda seed, tier, out: ["storage", "--seed", str(seed), "--n", "200" if tier == "quick" else "3000", "--out", out],
+         spec="StoreTrace", rule=_STORE_RULE,
+         distinct=lambda r: json.dumps(r, sort_keys=True) if r["f"] in ("satrange", "utxo", "merge", "points", "ids", "entry") else "x")
+register("C28", cmd=lambda seed, tier, out: ["storage", "--seed", str(seed), "--n", "200" if tier == "quick" else "3000", "--out", out],
+         spec="StoreTrace", rule=_STORE_RULE,
+         distinct=lambda r: json.dumps(r, sort_keys=True) if r["f"] in ("props", "bomb") else "x")
